@@ -626,27 +626,6 @@ func (e *pubEngine) track(fn *ssa.Function, roots map[ssa.Value]pubTaint, ext in
 func (e *pubEngine) closure(mc *ssa.MakeClosure, i int, t pubTaint, ext int,
 	ev func(byte, ssa.Instruction, pubTaint, int, string), add func(ssa.Value, pubTaint), extract func(ssa.Value, int, pubTaint)) {
 	clo, _ := mc.Fn.(*ssa.Function)
-	onlyCalled := mc.Referrers() != nil
-	goes := false
-	if mc.Referrers() != nil {
-		for _, ref := range *mc.Referrers() {
-			switch x := ref.(type) {
-			case *ssa.Call:
-				if x.Call.Value != mc {
-					onlyCalled = false
-				}
-			case *ssa.Defer:
-				if x.Call.Value != mc {
-					onlyCalled = false
-				}
-			case *ssa.Go:
-				goes = true
-			case *ssa.DebugRef:
-			default:
-				onlyCalled = false
-			}
-		}
-	}
 	if clo == nil {
 		ev('?', mc, t, 0, "captured by an unresolved function value")
 		return
@@ -659,33 +638,38 @@ func (e *pubEngine) closure(mc *ssa.MakeClosure, i int, t pubTaint, ext int,
 	if t.deep {
 		return
 	}
-	switch {
-	case goes:
-		ev('k', mc, t, 0, "captured by the goroutine "+FuncName(clo))
-	case !onlyCalled:
-		ev('k', mc, t, 0, "captured by the function value "+FuncName(clo)+", which outlives the statement")
-	default:
-		// called in place (or deferred): the body runs where it is called
-		if mc.Referrers() != nil {
-			for _, ref := range *mc.Referrers() {
-				if ci, ok := ref.(ssa.CallInstruction); ok {
-					ev('u', ci, t, 0, "used in the function literal "+FuncName(clo))
-					if sum.keep != "" {
-						ev('k', ci, t, 0, "in the function literal "+FuncName(clo)+": "+sum.keep)
-					}
-					if c, ok := ci.(*ssa.Call); ok {
-						for _, idx := range sortedInts(sum.returns) {
-							if clo.Signature.Results().Len() == 1 {
-								add(c, sum.returns[idx])
-							} else {
-								extract(c, idx, sum.returns[idx])
-							}
+	if sum.keep != "" {
+		ev('k', mc, t, 0, "in the function literal "+FuncName(clo)+": "+sum.keep)
+	}
+	if sum.unknown != "" {
+		ev('?', mc, t, 0, "in the function literal "+FuncName(clo)+": "+sum.unknown)
+	}
+	if mc.Referrers() != nil {
+		for _, ref := range *mc.Referrers() {
+			switch x := ref.(type) {
+			case *ssa.Go:
+				ev('k', mc, t, 0, "captured by the goroutine "+FuncName(clo))
+			case *ssa.Call:
+				if x.Call.Value == mc {
+					// called in place: the body runs where it is called
+					ev('u', x, t, 0, "used in the function literal "+FuncName(clo))
+					for _, idx := range sortedInts(sum.returns) {
+						if clo.Signature.Results().Len() == 1 {
+							add(x, sum.returns[idx])
+						} else {
+							extract(x, idx, sum.returns[idx])
 						}
 					}
+				}
+			case *ssa.Defer:
+				if x.Call.Value == mc {
+					ev('u', x, t, 0, "used in the deferred function literal "+FuncName(clo))
 				}
 			}
 		}
 	}
+	// wherever else the function value goes, it carries the reference with it
+	add(mc, pubTaint{box: true, path: "*"})
 }
 
 func (e *pubEngine) call(ci ssa.CallInstruction, v ssa.Value, t pubTaint, ext int,
@@ -731,7 +715,11 @@ func (e *pubEngine) call(ci ssa.CallInstruction, v ssa.Value, t pubTaint, ext in
 		return
 	}
 	if c.Value == v && !c.IsInvoke() {
-		// the object itself is a function value that is called: code is immutable
+		// the object itself is a function value that is called: code is immutable; a function value that
+		// carries the reference and is started as a goroutine takes it along
+		if isGo && t.box {
+			ev('k', in, t, 0, "carried by a function value that is started as a goroutine")
+		}
 		return
 	}
 	ev('u', in, t, 0, "handed to "+CalleeOf(ci))
@@ -1114,7 +1102,7 @@ func (r *Run) lockPublication(sp LockSpec, named *types.Named, st *types.Struct,
 		pubStats[r] = stat
 	}
 	r.Assume("publication discipline: an object reachable from a guarded reference field is one object with everything it owns; a reference to one of its elements that leaves the critical section is not followed (only the reference held in the field itself is)")
-	r.Assume("publication discipline: functions outside the module are followed three calls deep for writes through their arguments and are assumed not to keep an argument beyond the call; functions without a Go body (assembly) are assumed to do neither; memory of package sync / sync/atomic types and fields that have their own lock-table entry are synchronised by themselves")
+	r.Assume("publication discipline: functions outside the module are followed three calls deep for writes through their arguments and are assumed not to keep an argument beyond the call; functions without a Go body (assembly) are assumed to do neither; memory of package sync / sync/atomic types and fields that have their own lock-table entry are synchronised by themselves, and so is a write made while a mutex that is part of the written object is write-locked")
 	r.Assume("publication discipline: interface calls are resolved over the types declared in the module; a function value called dynamically is reported as undecided only when the object itself (not an element of it) is handed to it")
 
 	refField := map[string]bool{}
